@@ -4,7 +4,11 @@ import (
 	"context"
 	"net/url"
 	"path"
+	"reflect"
+	"strconv"
 	"strings"
+
+	"github.com/go-openapi/jsonpointer"
 )
 
 // RefNameResolver maps a component to an name that is used as it's internalized name.
@@ -139,6 +143,47 @@ func cutDirectories(p, dirs string) (string, bool) {
 	}
 
 	return p, false
+}
+
+// collisionFreeNames wraps a name resolver so that no object is kept under a name that
+// already designates another object of the same collection, be it a component the document
+// had before or another external object: a counter is appended until the name is free.
+func collisionFreeNames(resolve RefNameResolver) RefNameResolver {
+	kept := make(map[string]string) // "<collection>/<name>" → where the object kept under that name comes from
+	return func(doc *T, ref ComponentRef) string {
+		name := resolve(doc, ref)
+		source := ref.RefPath().String()
+		if p := ref.RefPath(); (p.Scheme == "" && p.Host == "" && p.Path == "") || referencesRootDocument(doc, ref) {
+			source = "#" + p.Fragment
+		} else if inRoot, found := ReferencesComponentInRootDocument(doc, ref); found {
+			source = inRoot
+		}
+		for base, n := name, 2; ; n++ {
+			key := ref.CollectionName() + "/" + name
+			held, known := kept[key]
+			if !known && hasComponent(doc, ref.CollectionName(), name) {
+				// a component the document had before: it is its own source
+				held, known = path.Join("#/components/", ref.CollectionName(), name), true
+			}
+			if !known || held == source {
+				kept[key] = source
+				return name
+			}
+			name = base + "_" + strconv.Itoa(n)
+		}
+	}
+}
+
+func hasComponent(doc *T, collection, name string) bool {
+	if doc.Components == nil {
+		return false
+	}
+	components, _, err := jsonpointer.GetForToken(doc.Components, collection)
+	if err != nil {
+		return false
+	}
+	v := reflect.ValueOf(components)
+	return v.Kind() == reflect.Map && v.MapIndex(reflect.ValueOf(name)).IsValid()
 }
 
 // A reference that was never resolved to a location (RefPath() == nil, e.g. "#" in a
@@ -569,6 +614,7 @@ func (doc *T) InternalizeRefs(ctx context.Context, refNameResolver func(*T, Comp
 	if refNameResolver == nil {
 		refNameResolver = DefaultRefNameResolver
 	}
+	refNameResolver = collisionFreeNames(refNameResolver)
 
 	if components := doc.Components; components != nil {
 		// Schemas that are external references themselves go first: each schema is walked
